@@ -10,6 +10,7 @@ mod gen_lp;
 mod props;
 mod rng;
 mod sx;
+mod syntax;
 mod text;
 
 use std::io::Write;
